@@ -21,6 +21,7 @@ package c14
 
 import (
 	"bytes"
+	"math"
 	"runtime"
 	"sort"
 	"strconv"
@@ -46,7 +47,9 @@ type cbRec struct {
 
 type tinfo struct {
 	id        timer.IdType
-	d         int64
+	d         int64         // the number of the op (ms, or ns for OCreateNs)
+	dur       time.Duration // the duration passed to After / AddTimer
+	far       bool          // d >= farD: does not expire within a case (never waited for)
 	rep       bool
 	arg       int64
 	prog      []any
@@ -59,6 +62,11 @@ type tinfo struct {
 }
 
 func (t *tinfo) repeating() bool { return t.rep && t.d > 0 }
+
+// farD mirrors Model.far: a timer asked for this much or more (of ms or of ns) is "never" on the
+// time scale of a case.  Nothing is waited for; an expiry that turns up anyway is reported by the
+// next Settle / Wait like any other and is then one the model does not have.
+const farD = 1000000000000
 
 type world struct {
 	mgr     *timer.Mgr
@@ -101,15 +109,35 @@ func goid() uint64 {
 const argMark = "c14-args"
 
 func (w *world) create(d int64, rep bool, arg int64, prog []any) {
+	w.createDur(d, unit, rep, arg, prog)
+}
+
+// createDur: the duration is d times u (u = 1 ns for OCreateNs)
+func (w *world) createDur(d int64, u time.Duration, rep bool, arg int64, prog []any) {
 	k := len(w.ts)
-	ti := &tinfo{d: d, rep: rep, arg: arg, prog: prog, expect: !w.stopped}
+	ti := &tinfo{d: d, rep: rep, arg: arg, prog: prog, far: d >= farD}
+	ti.dur = time.Duration(d) * u
+	if ti.far && u != 1 {
+		ti.dur = time.Duration(math.MaxInt64) // (d ms would not fit a Duration)
+	}
+	ti.expect = !w.stopped && !ti.far
 	w.ts = append(w.ts, ti)
 	cb := func(args ...interface{}) { w.callback(k, args) }
 	ti.armAt = time.Now()
 	if rep {
-		ti.id = w.mgr.AddTimer(time.Duration(d)*unit, cb, arg, argMark, int64(k))
+		ti.id = w.mgr.AddTimer(ti.dur, cb, arg, argMark, int64(k))
 	} else {
-		ti.id = w.mgr.After(time.Duration(d)*unit, cb, arg, argMark, int64(k))
+		ti.id = w.mgr.After(ti.dur, cb, arg, argMark, int64(k))
+	}
+	if u == 1 {
+		switch {
+		case ti.far:
+			w.tag("dur-never")
+		case d < 0:
+			w.tag("dur-negative")
+		case d > 0 && d < int64(time.Millisecond):
+			w.tag("dur-sub-ms")
+		}
 	}
 	w.byID[ti.id] = k
 	if w.inCb >= 0 {
@@ -149,6 +177,9 @@ func (w *world) cancel(k int64) {
 	case len(ti.recv) > 0 || ti.queued:
 		w.tag("cancel-queued")
 		w.nontriv = true
+	case ti.far && ti.count == 0:
+		w.tag("cancel-never-timer")
+		w.nontriv = true
 	case ti.expect:
 		w.tag("cancel-armed")
 		w.nontriv = true
@@ -179,7 +210,7 @@ func (w *world) callback(k int, args []interface{}) {
 	}
 	rec := cbRec{
 		k: int64(k), n: ti.count, argsOK: ok,
-		early:       now.Before(ti.armAt.Add(time.Duration(ti.d) * unit)),
+		early:       ti.far || now.Before(ti.armAt.Add(ti.dur)),
 		afterCancel: ti.cancelled,
 		onOwner:     w.onOwner(),
 	}
@@ -207,7 +238,7 @@ func (w *world) callback(k int, args []interface{}) {
 	defer func() {
 		w.inCb = prev
 		ti.armAt = time.Now() // Do re-arms after this point
-		if w.svcMode && ti.repeating() && !ti.cancelled && !w.stopped {
+		if w.svcMode && ti.repeating() && !ti.cancelled && !w.stopped && !ti.far {
 			ti.expect = true // (bare world: doObj)
 		}
 	}()
@@ -237,7 +268,7 @@ func (w *world) doObj(k int, o *timer.Obj) {
 	ti := w.ts[k]
 	before := ti.count
 	w.mgr.Do(o)
-	if ti.count > before && ti.repeating() && !ti.cancelled && !w.stopped {
+	if ti.count > before && ti.repeating() && !ti.cancelled && !w.stopped && !ti.far {
 		ti.expect = true
 	}
 }
@@ -348,6 +379,9 @@ func Exec(ops []hx.T) (obs []any, nontrivial bool, tags []string) {
 			obs = append(obs, "BUnit")
 		case "OCreate":
 			w.perform(func() { w.create(o.Int(0), o.Bool(1), o.Int(2), o.List(3)) })
+			obs = append(obs, "BUnit")
+		case "OCreateNs":
+			w.perform(func() { w.createDur(o.Int(0), 1, o.Bool(1), o.Int(2), o.List(3)) })
 			obs = append(obs, "BUnit")
 		case "OCreateN":
 			w.perform(func() {
